@@ -23,6 +23,8 @@ capability set without styled underlines. Two generalisations, one development:
   ignored by the emulator and shown as a single underline by the reference).
 -/
 import VaxisModel.Props.C12Caps
+import VaxisModel.Props.C01Cluster
+import VaxisModel.Lemmas.RenderSixel
 
 namespace VaxisModel.Props.C12Any
 open VaxisModel.Model.Render VaxisModel.Spec VaxisModel.Spec.Display VaxisModel.Lemmas.RenderGate
@@ -492,6 +494,76 @@ theorem emu_shows_across_resizes_any_clustered (merges : String → String → B
       ∀ sg, segs.getLast? = some sg → Lemmas.Emu.EmuInv e' sg.rows sg.cols ∧
         ∀ fi, sg.frames.getLast? = some fi → ShowsCK caps dec cw fi e' := by
   rw [runSegsM_eq merges cat dec cw segs s e hnm]
+  exact emu_shows_across_resizes_any dec cw hsp hd hemp hlp segs rows cols s e hl hok
+
+/-! ### clustering, the tight hypothesis: only horizontally NEIGHBOURING shown cells must not join -/
+
+omit [CapsOkU caps] in
+/-- One frame: under C01's tight hypothesis no text write of the frame directly follows one it merges
+    with, so the parser's re-segmentation changes nothing. -/
+theorem frame_adj_eq (merges : String → String → Bool) (cat : String → String → String) (dec : String → G)
+    (cw : String → Nat) (s : HState) (fi : FrameIn) (hsx : ∀ r ∈ fi.next, ∀ c ∈ r, c.sixel = false)
+    (h : C01Cluster.NoJoinNeighbours merges cw caps fi.next) :
+    opsOfToksM merges cat dec cw (renderFrameC cw (mkFrame caps s fi)).2 =
+      opsOfToks dec cw (renderFrameC cw (mkFrame caps s fi)).2 := by
+  apply Lemmas.C12Cluster.opsOfToksM_eq_adj
+  have := C01Cluster.render_no_adjacent_join_tight merges cw (mkFrame caps s fi) h
+  rwa [Lemmas.RenderSixel.renderFrameS_eq cw (mkFrame caps s fi) hsx] at this
+
+omit [CapsOkU caps] in
+theorem runFramesMK_eq_adj (merges : String → String → Bool) (cat : String → String → String) (dec : String → G) (cw : String → Nat) :
+    ∀ (fis : List FrameIn) (s : HState) (e : Emu),
+      (∀ fi ∈ fis, (∀ r ∈ fi.next, ∀ c ∈ r, c.sixel = false) ∧ C01Cluster.NoJoinNeighbours merges cw caps fi.next) →
+      runFramesMK caps merges cat dec cw s e fis = runFramesCK caps dec cw s e fis := by
+  intro fis
+  induction fis with
+  | nil => intro s e _; rfl
+  | cons a rest ih =>
+    intro s e h
+    simp only [runFramesMK, runFramesCK]
+    rw [frame_adj_eq merges cat dec cw s a (h a (by simp)).1 (h a (by simp)).2]
+    cases hr : runOps e (opsOfToks dec cw (renderFrameC cw (mkFrame caps s a)).2) with
+    | error p => rfl
+    | ok e1 =>
+      simp only [bind, Except.bind]
+      exact ih _ e1 (fun fi hfi => h fi (by simp [hfi]))
+
+omit [CapsOkU caps] in
+theorem runSegsM_eq_adj (merges : String → String → Bool) (cat : String → String → String) (dec : String → G) (cw : String → Nat) :
+    ∀ (segs : List Seg) (s : HState) (e : Emu),
+      (∀ sg ∈ segs, ∀ fi ∈ sg.frames, (∀ r ∈ fi.next, ∀ c ∈ r, c.sixel = false) ∧ C01Cluster.NoJoinNeighbours merges cw caps fi.next) →
+      runSegsM caps merges cat dec cw s e segs = runSegs caps dec cw s e segs := by
+  intro segs
+  induction segs with
+  | nil => intro s e _; rfl
+  | cons sg rest ih =>
+    intro s e h
+    simp only [runSegsM, runSegs]
+    cases h1 : runOps e [.resize sg.cols sg.rows] with
+    | error p => rfl
+    | ok e1 =>
+      simp only [bind, Except.bind]
+      rw [runFramesMK_eq_adj merges cat dec cw sg.frames _ e1 (h sg (by simp))]
+      cases h2 : runFramesCK caps dec cw (afterResize sg.cols sg.rows e1 s) e1 sg.frames with
+      | error p => rfl
+      | ok e2 => simp only; exact ih _ e2 (fun x hx => h x (by simp [hx]))
+
+/-- **The composition theorem through the clustering wire under the TIGHT hypothesis** — exactly the
+    situation of F112d and nothing more: no two horizontally neighbouring SHOWN cells of a row of a frame
+    join when written back to back (C01's `NoJoinNeighbours`: a cell under a wide glyph is not shown; cells
+    of different rows, or cells separated by a cell that is skipped — which forces a CUP — never meet on
+    the wire: `Props.C01Cluster.render_no_adjacent_join_tight`). Round 3's `NoMergeGrid` asked it of ANY
+    two graphemes of the frame, blank included. -/
+theorem emu_shows_across_resizes_any_clustered_tight (merges : String → String → Bool) (cat : String → String → String)
+    (dec : String → G) (cw : String → Nat) (hsp : cw "20" = 1) (hd : dec "20" = [32]) (hemp : dec "" = []) (hlp : LpOk dec)
+    (segs : List Seg) (rows cols : Nat) (s : HState) (e : Emu) (hl : LinkedP dec cw s e rows cols)
+    (hok : ∀ sg ∈ segs, SegOkU caps dec cw sg)
+    (hnm : ∀ sg ∈ segs, ∀ fi ∈ sg.frames, C01Cluster.NoJoinNeighbours merges cw caps fi.next) :
+    ∃ e', runSegsM caps merges cat dec cw s e segs = .ok e' ∧ e'.mode.smcup = e.mode.smcup ∧
+      ∀ sg, segs.getLast? = some sg → Lemmas.Emu.EmuInv e' sg.rows sg.cols ∧
+        ∀ fi, sg.frames.getLast? = some fi → ShowsCK caps dec cw fi e' := by
+  rw [runSegsM_eq_adj merges cat dec cw segs s e (fun sg hsg fi hfi =>
+    ⟨fun r hr c hc => (((hok sg hsg).1.2.2 fi hfi).1.2.2.1 r hr c hc).1, hnm sg hsg fi hfi⟩)]
   exact emu_shows_across_resizes_any dec cw hsp hd hemp hlp segs rows cols s e hl hok
 
 /-- **In equational form**: the grid read back IS the application's screen, the cursor read back IS
